@@ -537,21 +537,21 @@ func (r *BlockchainReactor) AddPeer(peer p2p.Peer) {
 	}
 	r.mtx.RLock()
 	defer r.mtx.RUnlock()
-	if r.events != nil {
-		r.events <- bcAddNewPeer{peerID: peer.ID()}
-	}
+	// not blocking: a status response from the peer registers it as well
+	r.offer(bcAddNewPeer{peerID: peer.ID()})
 }
 
 // RemovePeer implements Reactor interface.
 func (r *BlockchainReactor) RemovePeer(peer p2p.Peer, reason interface{}) {
 	r.mtx.RLock()
 	defer r.mtx.RUnlock()
-	if r.events != nil {
-		r.events <- bcRemovePeer{
-			peerID: peer.ID(),
-			reason: reason,
-		}
-	}
+	// not blocking: RemovePeer is also reached from demux itself (it reports a bad
+	// peer, the switch stops it and calls back), the only consumer of r.events;
+	// the scheduler prunes a peer that stays silent
+	r.offer(bcRemovePeer{
+		peerID: peer.ID(),
+		reason: reason,
+	})
 }
 
 // GetChannels implements Reactor
